@@ -1030,27 +1030,21 @@ auto concrete_ops(Config const& cfg) -> std::vector<RawOp>
     return out;
 }
 
-// compact alphabet for the exhaustive histories (20 letters for static_set, 26 for flat_set; `reduced`: 12 / 16)
-auto history_alphabet(Config const& cfg, bool reduced) -> std::vector<RawOp>
+// compact alphabets for the exhaustive histories: quick = 20 letters (static_set) / 26 (flat_set), all histories of
+// depth 4; thorough = 20 / 22 letters, all histories of depth 5
+auto history_alphabet(Config const& cfg, bool thorough) -> std::vector<RawOp>
 {
     std::vector<RawOp> a{
         {INSERT_CREF, 0, 0, 0}, {INSERT_CREF, 2, 0, 0}, {INSERT_RREF, 4, 0, 0}, {EMPLACE, 3, 0, 0}, {INSERT_CREF, 5, 0, 1}, // the last one targets B
         {ERASE_KEY, 2, 0, 0}, {ERASE_KEY, 3, 0, 0}, {ERASE_KEY, 1, 0, 0}, {ERASE_ITER, 0, 0, 0}, {ERASE_RANGE, 0, 2, 0} /* all */, {ERASE_RANGE, 1, 2, 0} /* [1,end) */,
-        {SWAP_MEMBER, 0, 0, 0},
+        {SWAP_MEMBER, 0, 0, 0}, {INSERT_RANGE, 8, 3, 0} /* keys 2 1 0 */, {ERASE_RANGE, 0, 3, 0} /* all but the last */, {CLEAR, 0, 0, 0}, {COPY_ASSIGN, 0, 0, 0},
     };
-    if (!reduced) {
-        std::vector<RawOp> more{
-            {INSERT_RANGE, 8, 3, 0} /* keys 2 1 0 */, {ERASE_RANGE, 0, 3, 0} /* all but the last */, {CLEAR, 0, 0, 0}, {COMPARE, 0, 0, 0}, {COPY_ASSIGN, 0, 0, 0}, {MOVE_ASSIGN, 0, 0, 0},
-            {COPY_CTOR_MUTATE, 1, 0, 0}, {CTOR_RANGE, 129, 8, 0} /* keys 3 3 3 through input iterators */,
-        };
+    if (cfg.kind == 0 || !thorough) {
+        std::vector<RawOp> more{{COMPARE, 0, 0, 0}, {MOVE_ASSIGN, 0, 0, 0}, {COPY_CTOR_MUTATE, 1, 0, 0}, {CTOR_RANGE, 129, 8, 0} /* keys 3 3 3 through input iterators */};
         a.insert(a.end(), more.begin(), more.end());
     }
     if (cfg.kind == 1) {
-        std::vector<RawOp> fl{{INSERT_HINT_CREF, 1, 0, 0}, {EXTRACT, 0, 0, 0}, {EXTRACT, 0, 1, 0}, {REPLACE, 0x2A, 0, 0} /* keys 1 3 5 */};
-        if (!reduced) {
-            std::vector<RawOp> more{{EMPLACE_HINT, 4, 4, 0}, {ERASE_IF, 0, 0, 0}};
-            fl.insert(fl.end(), more.begin(), more.end());
-        }
+        std::vector<RawOp> fl{{INSERT_HINT_CREF, 1, 0, 0}, {EXTRACT, 0, 0, 0}, {EXTRACT, 0, 1, 0}, {REPLACE, 0x2A, 0, 0} /* keys 1 3 5 */, {EMPLACE_HINT, 4, 4, 0}, {ERASE_IF, 0, 0, 0}};
         a.insert(a.end(), fl.begin(), fl.end());
     }
     return a;
@@ -1126,9 +1120,7 @@ void enum_short_histories(vf::Ctx& c)
                 }
             });
         };
-        // quick: every history of depth 4 over the full alphabet; thorough: depth 5 over the full and depth 6 over the reduced alphabet
-        go(history_alphabet(cfg, false), c.thorough() ? 5 : 4);
-        if (c.thorough()) { go(history_alphabet(cfg, true), 6); }
+        go(history_alphabet(cfg, c.thorough()), c.thorough() ? 5 : 4);
     }
 }
 
